@@ -964,6 +964,10 @@ class ManifestRecursiveLoader:
                 fullpath = os.path.join(relpath, e.path)
                 if path_starts_with(fullpath, path):
                     if fullpath in out:
+                        if (e.tag == 'IGNORE'
+                                and out[fullpath][1].tag == 'IGNORE'):
+                            # duplicate IGNORE entries are harmless
+                            continue
                         # compare the two entries
                         ret, diff = verify_entry_compatibility(
                             out[fullpath][1], e)
